@@ -104,10 +104,25 @@ def main():
             os.remove(os.path.join(tdir, "zz_seed_demo_test.go"))
         else:
             shutil.rmtree(os.path.join(wt, "zz_seed_demo"), ignore_errors=True)
-        tcmd = "go test -count=1 -timeout 20m %s" % " ".join(pk)
-        rc2, out2 = run(tcmd, wt, 1500)
-        res["existing_tests_cmd"] = tcmd
-        res["existing_tests_with_change"] = {"exit": rc2, "tail": out2[-800:]}
+        # the pinned suite = the stable_pass list of /root/.vp/BASELINE.json; every stable test of the
+        # affected packages must still pass (tests that already fail/hang at baseline are ignored)
+        stable = json.load(open("/root/.vp/BASELINE.json"))["stable_pass"]
+        tcmd = "go test -json -vet=off -count=1 -timeout 20m %s" % " ".join(pk)
+        p = subprocess.run(tcmd, cwd=wt, shell=True, env=ENV, capture_output=True, text=True, timeout=1500)
+        passed = set()
+        for l in p.stdout.splitlines():
+            try:
+                e = json.loads(l)
+            except Exception:
+                continue
+            if e.get("Action") == "pass" and e.get("Test"):
+                passed.add(e["Package"] + "::" + e["Test"])
+        pkgnames = ["github.com/pinealctx/neptune/" + x.strip("./") for x in pk]
+        want = [t for t in stable if t.split("::")[0] in pkgnames]
+        missing = [t for t in want if t not in passed]
+        rc2 = 0 if not missing else 1
+        res["existing_tests_cmd"] = tcmd + "   (judged on the stable_pass tests of BASELINE.json for these packages)"
+        res["existing_tests_with_change"] = {"exit": rc2, "stable_tests_of_packages": len(want), "not_passing": missing[:10]}
         res["confirmed"] = bool(res["applies_and_builds"] and rc0 == 0 and any(f != 0 for f in fails) and rc2 == 0)
     finally:
         subprocess.run("git -C /repo worktree remove --force %s" % wt, shell=True, capture_output=True)
